@@ -1,2 +1,5 @@
 import Yarel.Model.Basic
 import Yarel.Model.F64Core
+import Yarel.Model.Intern
+import Yarel.Props.C11
+import Yarel.Drv.Intern
